@@ -13,14 +13,18 @@ namespace gb
         const char* name;
         std::string prefix;
         std::string tail;
+        std::string alpha = std::string(); // symbols of this mode (filled in by modes(): kSigma, plus URI delimiters in the target / query modes)
     };
+
+    static const char kSigma[] = { 'A', '0', 'f', '-', ' ', ':', ';', '=', '\r', '\n', '\0', '\xff' };
+    static constexpr int kNSigma = sizeof kSigma;
 
     inline std::vector<Mode> modes()
     {
         const std::string rl = "GET / HTTP/1.1\r\n";
         const std::string ch = "POST / HTTP/1.1\r\nTransfer-Encoding: chunked\r\n\r\n";
         const std::string rs = "HTTP/1.1 200 OK\r\n";
-        return {
+        std::vector<Mode> v = {
             { false, "start", "", " / HTTP/1.1\r\n\r\n" },
             { false, "in-method", "GE", "T / HTTP/1.1\r\n\r\n" },
             { false, "after-method-sp", "GET ", " HTTP/1.1\r\n\r\n" },
@@ -56,10 +60,15 @@ namespace gb
             { true, "rsp-chunk-size-start", rs + "Transfer-Encoding: chunked\r\n\r\n", "\r\n0\r\n\r\n" },
             { true, "rsp-in-length-body", rs + "Content-Length: 4\r\n\r\nab", "cdef" },
         };
+        for (auto& m : v)
+        {
+            m.alpha.assign(kSigma, kNSigma);
+            std::string n = m.name;
+            if (n.find("target") != std::string::npos || n.find("query") != std::string::npos || n == "after-method-sp")
+                m.alpha += "&?/%#";
+        }
+        return v;
     }
-
-    static const char kSigma[] = { 'A', '0', 'f', '-', ' ', ':', ';', '=', '\r', '\n', '\0', '\xff' };
-    static constexpr int kNSigma = sizeof kSigma;
 
     // number of strings over an alphabet of a symbols with length 0..L
     inline uint64_t count_upto(uint64_t a, int L)
